@@ -4,9 +4,13 @@ Program recipe (plain JSON)
     {"mode": "implicit" | "explicit",      implicit: no memory spaces and no casts in the input (set-memory-space creates
                                            them); explicit: every memref type carries its space, cast chains are written out
      "elt": 8|16|32, "shape": [n] | [n, m],               element width and the shape every op operand has
-     "roots": [{"kind": "arg"|"alloc"|"glob"|"globu"|"const", "big": 0|1, "seed": int, "space": "L1"|"L3", "gg": 0|1, "dyn": 0|1}],
+     "roots": [{"kind": "arg"|"alloc"|"glob"|"globu"|"const", "big": 0|1, "seed": int, "space": "L1"|"L3", "gg": 0|1, "dyn": bit mask,
+                "ispace": null|"L1"|"L3"}],
                                            gg: every access path of a global takes its own memref.get_global
-                                           dyn: (arg, not big) dimension 0 is `?` in the types (no TSL casts on such a root)
+                                           dyn: (arg / alloc, not big) bit d set = dimension d is `?` in the types (no TSL casts on
+                                           such a root); a dynamic alloc takes its sizes from index constants
+                                           ispace: (arg, implicit mode) memory space written on this argument although the
+                                           others have none: mixed public signatures
      "layouts": [{"split": [inner tile per dim], "perm": int, "gap": 0|1}],      pool of target layouts of the operand shape
      "epochs": [{"paths": [path per root], "stmts": [stmt]}],
      "ret": [root ref], "vis": "public"|"none", "a2g": 0|1, "dead": 0|1, "plain": 0|1,
@@ -160,7 +164,7 @@ def layout_spec(draw, rank):
     return dict(split=[draw(st.integers(0, 5)) for _ in range(rank)], perm=draw(st.integers(0, 23)), gap=draw(st.sampled_from([0, 0, 0, 0, 1])))
 
 
-_SHAPES = [[4], [8], [6], [4, 4], [2, 4], [4, 2], [2, 6], [8, 2], [3, 4], [2, 2]]
+_SHAPES = [[4], [8], [6], [4, 4], [2, 4], [4, 2], [2, 6], [8, 2], [3, 4], [2, 2], [2, 3, 4], [4, 2, 3], [3, 2, 2], [2, 4, 3]]
 
 
 @st.composite
@@ -245,7 +249,8 @@ def program(draw, tier="quick", mode=None):
     kinds = ["arg", "arg", "arg", "alloc", "alloc", "glob", "globu", "const"]
     roots = [dict(kind=draw(st.sampled_from(kinds)), big=draw(st.sampled_from([0, 0, 1])), seed=draw(st.integers(0, 4000)),
                   space=draw(st.sampled_from(["L3", "L3", "L3", "L1"])), gg=draw(st.sampled_from([0, 0, 0, 1])),
-                  dyn=draw(st.sampled_from([0, 0, 0, 0, 1]))) for _ in range(nroots)]
+                  dyn=draw(st.sampled_from([0] * 12 + [1, 2, 2, 3, 4, 5, 6, 6, 7])),
+                  ispace=draw(st.sampled_from([None, None, None, "L1", "L1", "L3"]))) for _ in range(nroots)]
     nlay = draw(st.integers(1, 3))
     layouts = [draw(layout_spec(len(shape))) for _ in range(nlay)]
     nep = draw(st.sampled_from([1, 1, 2, 2, 3]))
@@ -302,8 +307,19 @@ def build(r) -> Built:
     lay_recipes = [layout_from_spec(shape, s) for s in r["layouts"]]
     lay_texts = [tsl_text(l) for l in lay_recipes]
 
+    def dyn_mask(i):
+        rt = roots[i]
+        if rt.get("big") or rt["kind"] not in ("arg", "alloc") or (rt["kind"] == "alloc" and r.get("a2g")):
+            return [False] * rank
+        m = int(rt.get("dyn") or 0)
+        return [bool((m >> d) & 1) for d in range(rank)]
+
     def is_dyn(i):
-        return bool(roots[i].get("dyn")) and roots[i]["kind"] == "arg" and not roots[i].get("big")
+        return any(dyn_mask(i))
+
+    def dshape(i, sh):
+        """Shape as written in the types of root i: `?` where the dimension is dynamic (run-time size = sh)."""
+        return ["?" if m else n for m, n in zip(dyn_mask(i), sh)]
 
     def casts_of(i, path):
         """Casts of a path as emitted. A root with a dynamic dimension takes no static TSL layout: its layout casts are dropped
@@ -329,17 +345,25 @@ def build(r) -> Built:
         rshape = big_shape if rt.get("big") else shape
         kind = rt["kind"]
         if kind == "arg":
-            sp = (rt.get("space") or "L3") if explicit else None
+            sp = (rt.get("space") or "L3") if explicit else rt.get("ispace")
             nm = f"%A{i}"
             b.arg_spec.append(("mem", rshape))
-            if is_dyn(i):
-                rshape = ["?"] + list(rshape[1:])  # run-time size = the operand shape
-                b.features.add("dynamic-dim")
+            rshape = dshape(i, rshape)  # run-time size = the operand shape
             args.append((nm, mtype(rshape, elt, None, sp)))
+            if sp is not None and not explicit:
+                b.features.add("sig:annotated-arg:" + sp)
         elif kind == "alloc":
             sp = "L1" if explicit else None
             nm = f"%M{i}"
-            top.append(f'    {nm} = "memref.alloc"() <{{operandSegmentSizes = array<i32: 0, 0>, alignment = 64 : i64}}> : () -> {mtype(rshape, elt, None, sp)}')
+            dyn_ops = []
+            for d, m in enumerate(dyn_mask(i)):
+                if m:
+                    dn = f"%dn{i}_{d}"
+                    top.append(f'    {dn} = "arith.constant"() <{{value = {rshape[d]} : index}}> : () -> index')
+                    dyn_ops.append(dn)
+            rshape = dshape(i, rshape)
+            top.append(f'    {nm} = "memref.alloc"({", ".join(dyn_ops)}) <{{operandSegmentSizes = array<i32: {len(dyn_ops)}, 0>, alignment = 64 : i64}}> : '
+                       f'({", ".join(["index"] * len(dyn_ops))}) -> {mtype(rshape, elt, None, sp)}')
         elif kind in ("glob", "globu"):
             sp = "L3" if explicit else None
             nm = f"%G{i}"
@@ -364,6 +388,13 @@ def build(r) -> Built:
             top.append(f'    {nm} = "arith.constant"() <{{value = {dense_text(data_values(rt.get("seed", 0), n, elt), rshape)} : {ty}}}> {{"c12.tag" = {100 + i} : i64}} : () -> {ty}')
         root_val.append((nm, rshape, sp))
         b.features.add("root:" + kind + ("+big" if rt.get("big") else ""))
+        if is_dyn(i):
+            mk = dyn_mask(i)
+            b.features.add("dynamic-dim")
+            if any(mk[d] and not all(mk[:d]) for d in range(rank)):
+                b.features.add("dynamic-dim:static-before-dynamic")
+            if sum(mk) >= 2:
+                b.features.add("dynamic-dim:several")
 
     loop_args: list[str] = []
     use_count: dict[str, list] = {}  # cast value -> [readers, writers]
@@ -387,7 +418,7 @@ def build(r) -> Built:
             out.append(f'{pad}{nm} = "memref.get_global"() <{{name = @g{i}}}> : () -> {mtype(rshape, elt, None, sp)}')
         cur = nm
         casts = casts_of(i, path)
-        oshape = (["?"] + list(shape[1:])) if is_dyn(i) else shape
+        oshape = dshape(i, shape)
         if not roots[i].get("big") and (force_full or (needs_fresh[i] and not casts)):
             strides_txt = ", ".join(str(math.prod(rshape[d + 1:])) for d in range(rank))
             layout = f"strided<[{strides_txt}], offset: 0>"
@@ -584,7 +615,7 @@ def build(r) -> Built:
         if plan["how"] == "sub":
             return emit_path(i, dict(sv=path.get("sv", 0), casts=plan["casts"]), out, pad, iv, force_full=True)
         cur, cur_t, nc, sp, layout = a_val
-        oshape = (["?"] + list(shape[1:])) if is_dyn(i) else shape
+        oshape = dshape(i, shape)
         for c in plan["casts"]:
             if c[0] == "ms":
                 nsp, nl, opn = c[1], layout, "memref.memory_space_cast"
